@@ -50,6 +50,9 @@ const (
 	FBuildCancel // the context given to BuildWithContext is cancelled when the N-th constructor invocation of the Build is entered
 )
 
+// buildCtxOnly: a build-cancel fault position that is never reached.
+const buildCtxOnly = 1 << 20
+
 var faultNames = []string{"ctor-error", "ctor-panic", "ctor-nil", "close-error", "build-cancel"}
 
 type Fault struct {
@@ -82,6 +85,9 @@ func (f *Fault) returned() error {
 }
 
 func (f *Fault) String() string {
+	if f.Kind == FBuildCancel && f.N == buildCtxOnly {
+		return "Build runs as BuildWithContext on a cancellable context that is never cancelled"
+	}
 	if f.Kind == FBuildCancel {
 		return fmt.Sprintf("build-cancel when constructor invocation #%d of the Build is entered", f.N)
 	}
